@@ -20,7 +20,9 @@ type cg struct {
 	pend     map[int]int    // ops in the batch
 	bigIter  bool
 	effect   bool
-	noREmpty bool // no empty-but-non-nil reverse start bound (badger)
+	noREmpty bool // no empty-but-non-nil reverse start bound (unused since afaf3d1)
+	bdgOnce  bool // badger batches single-use (only on a tree where reuse kills the process)
+	rewrite  bool // written batches may be written again without Reset
 }
 
 func (c *cg) rnd(n int) int { return c.g.Rng.Intn(n) }
@@ -260,12 +262,15 @@ func (c *cg) batchStep() {
 				c.live[hx.Hex(k)] = true
 			}
 		}
-		if c.hasBdg {
-			// single use on badger (reuse after Flush/Cancel kills the process: finding badger-batch-reuse)
+		switch {
+		case c.hasBdg && c.bdgOnce:
 			c.emit(fmt.Sprintf("bdrop id=%d", id))
 			delete(c.open, id)
-		} else {
-			// a written batch is reset before reuse (memBatch/goleveldb keep their ops after Write, bolt clears them)
+		case c.rewrite && c.rnd(2) == 0:
+			// no Reset: memBatch and goleveldb still hold the ops, bolt and badger are empty (model: batchAfterWrite)
+			c.open[id] = "used"
+			g.Count("batch-kept-after-write-without-reset")
+		default:
 			c.emit(fmt.Sprintf("breset id=%d", id))
 			c.open[id] = "used"
 			c.pend[id] = 0
@@ -277,7 +282,7 @@ func (c *cg) batchStep() {
 		if c.pend[id] > 0 {
 			g.Count("batch-reset-nonempty")
 		}
-		if c.hasBdg {
+		if c.hasBdg && c.bdgOnce {
 			c.emit(fmt.Sprintf("bdrop id=%d", id))
 			delete(c.open, id)
 		} else {
@@ -368,18 +373,28 @@ func (P) Generate(g *hx.Gen) {
 		"set k=01 v=aa", "bnew id=0", "bset id=0 k=02 v=bb", "bdel id=0 k=01", "bset id=0 k=01 v=cc", "bdel id=0 k=02", "bset id=0 k=03 v=dd",
 		"get k=01", "get k=02", "iter s=nil e=nil", "bwrite id=0", "bdrop id=0", "get k=01", "get k=02", "get k=03", "iter s=nil e=nil"}, true)
 
-	// ---- corpus: the recorded findings (each must keep reproducing, see known_findings.json)
-	g.Case("corpus finding cpincr-prefix-overrun (IteratePrefix)", []string{"case backends=mem,ldb,bolt,bdg prefix=none",
+	// ---- corpus: the witnesses of the five repaired findings (they must now give the reference answers)
+	g.Case("corpus fixed cpincr-prefix-overrun (IteratePrefix)", []string{"case backends=mem,ldb,bolt,bdg prefix=none",
 		"set k=66ff v=01", "set k=67 v=02", "iterprefix p=66ff", "piter p=66ff"}, false)
-	g.Case("corpus finding cpincr-prefix-overrun (PrefixDB.ReverseIterator)", []string{"case backends=mem,ldb,bolt,bdg prefix=66ff",
+	g.Case("corpus fixed cpincr-prefix-overrun (PrefixDB.ReverseIterator)", []string{"case backends=mem,ldb,bolt,bdg prefix=66ff",
 		"uset k=67 v=02", "set k=01 v=01", "riter s=nil e=nil", "riter s=01 e=nil", "iter s=nil e=nil"}, false)
-	g.Case("corpus finding ldb-load-exist-deleted-key", []string{"case backends=mem,ldb,bolt,bdg prefix=none",
+	g.Case("corpus fixed ldb-load-exist-deleted-key", []string{"case backends=mem,ldb,bolt,bdg prefix=none",
 		"set k=01 v=01", "del k=01", "exist k=01", "load k=01", "has k=01", "get k=01", "reopen", "exist k=01"}, false)
-	g.Case("corpus finding bdg-riter-empty-start", []string{"case backends=mem,ldb,bolt,bdg prefix=none",
+	g.Case("corpus fixed bdg-riter-empty-start", []string{"case backends=mem,ldb,bolt,bdg prefix=none",
 		"set k=01 v=01", "riter s=- e=nil", "riter s=nil e=nil"}, false)
-	g.Case("corpus finding sharded-iter-duplicate", []string{"case backends=mem,ldb,bolt,bdg prefix=none counts=4",
+	g.Case("corpus fixed sharded-iter-duplicate", []string{"case backends=mem,ldb,bolt,bdg prefix=none counts=4",
 		"set k=01 v=01", "set k=02 v=02", "set k=03 v=03", "set k=04 v=04", "iter s=nil e=nil", "iter s=02 e=03", "iter s=03 e=04", "iter s=04 e=05", "iter s=01 e=02"}, false)
-	g.Case("corpus finding badger-batch-reuse-crash", []string{"case backends=-", "crashprobe mode=reset-write", "crashprobe mode=write-reset-write"}, false)
+	g.Case("corpus fixed badger-batch-reuse-crash (child process)", []string{"case backends=-", "crashprobe mode=reset-write", "crashprobe mode=write-reset-write", "crashprobe mode=write-write"}, false)
+	bdgOnce := !badgerReuseSafe()
+	if bdgOnce {
+		g.Count("badger-batch-reuse-unsafe:single-use-batches")
+	} else {
+		g.Case("corpus fixed badger-batch-reuse (in process)", []string{"case backends=mem,ldb,bolt,bdg prefix=none",
+			"bnew id=0", "bset id=0 k=01 v=01", "bcommit id=0", "breset id=0", "get k=01", "bset id=0 k=02 v=02", "bdel id=0 k=01", "get k=02", "bcommit id=0",
+			"iter s=nil e=nil", "breset id=0", "bset id=0 k=03 v=03", "breset id=0", "bwrite id=0", "iter s=nil e=nil"}, true)
+		g.Case("corpus batch written twice without reset", []string{"case backends=mem,ldb,bolt,bdg prefix=none tags=rewrite",
+			"bnew id=0", "bset id=0 k=01 v=01", "bwrite id=0", "del k=01", "bwrite id=0", "get k=01", "bset id=0 k=02 v=02", "bwrite id=0", "iter s=nil e=nil"}, false)
+	}
 
 	// ---- (L) leaf functions
 	nL := g.Pick(12, 60)
@@ -398,8 +413,8 @@ func (P) Generate(g *hx.Gen) {
 				ops = append(ops, fmt.Sprintf("indomain k=%s s=%s e=%s rev=%d", kk, pick(), pick(), g.Rng.Intn(2)))
 				g.Count("op:indomain")
 			case 1:
-				ops = append(ops, "cpincr b="+leafBytes(g))
-				g.Count("op:cpincr")
+				ops = append(ops, "ipbounds b="+leafBytes(g))
+				g.Count("op:ipbounds")
 			case 2:
 				ops = append(ops, "cpdecr b="+leafBytes(g))
 				g.Count("op:cpdecr")
@@ -418,7 +433,7 @@ func (P) Generate(g *hx.Gen) {
 	// ---- (A) the store itself, (B) PrefixDB views
 	nAB := g.Pick(450, 1200)
 	for k := 0; k < nAB; k++ {
-		c := &cg{g: g, live: map[string]bool{}, open: map[int]string{}, pend: map[int]int{}}
+		c := &cg{g: g, live: map[string]bool{}, open: map[int]string{}, pend: map[int]int{}, bdgOnce: bdgOnce}
 		view := g.Rng.Intn(100) < 45
 		var header string
 		var first string
@@ -430,7 +445,7 @@ func (P) Generate(g *hx.Gen) {
 			g.Count("backends:mem,ldb(empty-key)")
 		case r < 40:
 			backs = "mem,ldb,bolt"
-			g.Count("backends:mem,ldb,bolt(batch-reuse)")
+			g.Count("backends:mem,ldb,bolt")
 		default:
 			g.Count("backends:all4")
 		}
@@ -441,11 +456,16 @@ func (P) Generate(g *hx.Gen) {
 			g.Count("backends:mem,ldb,bolt(thorough-memory-cap)")
 		}
 		c.hasBdg = strings.Contains(backs, "bdg")
+		tag := ""
+		if g.Rng.Intn(100) < 10 && !(c.hasBdg && bdgOnce) {
+			c.rewrite, tag = true, " tags=rewrite"
+			g.Count("kind:rewrite(batch written again without reset)")
+		}
 		if view {
 			p := prefixShapes(g)
 			c.emptyOK = true // the empty VIEW key is prefix itself in the store: legal everywhere
 			c.keys = universe(g, true)
-			first = fmt.Sprintf("case backends=%s prefix=%s", backs, hx.Hex(p))
+			first = fmt.Sprintf("case backends=%s prefix=%s%s", backs, hx.Hex(p), tag)
 			header = fmt.Sprintf("view prefix=%s backends=%s", hx.Hex(p), backs)
 			c.emit(first)
 			for _, nk := range noise(g, p, backs == "mem,ldb") {
@@ -455,7 +475,7 @@ func (P) Generate(g *hx.Gen) {
 			g.Count("prefix-shape:" + shapeOf(p))
 		} else {
 			c.keys = universe(g, c.emptyOK)
-			first = fmt.Sprintf("case backends=%s prefix=none", backs)
+			first = fmt.Sprintf("case backends=%s prefix=none%s", backs, tag)
 			header = "store backends=" + backs
 			c.emit(first)
 			g.Count("kind:store")
@@ -476,7 +496,7 @@ func (P) Generate(g *hx.Gen) {
 	// ---- (S) sharded stores (counts=4): lookups exact, iteration as a sorted multiset
 	nS := g.Pick(30, 40)
 	for k := 0; k < nS; k++ {
-		c := &cg{g: g, live: map[string]bool{}, open: map[int]string{}, pend: map[int]int{}, hasBdg: true}
+		c := &cg{g: g, live: map[string]bool{}, open: map[int]string{}, pend: map[int]int{}, hasBdg: true, bdgOnce: bdgOnce}
 		c.keys = universe(g, false)
 		for i := 0; i < 6; i++ { // more keys so that every shard gets some and some shards stay empty in a range
 			b := make([]byte, 1+g.Rng.Intn(3))
@@ -497,7 +517,7 @@ func (P) Generate(g *hx.Gen) {
 	// ---- (M) malformed stream: empty prefix views, inverted bounds, ops on missing keys / empty batches
 	nM := g.Pick(12, 100)
 	for k := 0; k < nM; k++ {
-		c := &cg{g: g, live: map[string]bool{}, open: map[int]string{}, pend: map[int]int{}, hasBdg: true}
+		c := &cg{g: g, live: map[string]bool{}, open: map[int]string{}, pend: map[int]int{}, hasBdg: true, bdgOnce: bdgOnce}
 		c.keys = universe(g, false)
 		c.bounds = boundsOf(g, c.keys)
 		if k%2 == 0 {
